@@ -1241,15 +1241,16 @@ theorem origin_initial_true (tbl : ResolveTable) (hT : precedenceOK tbl = true) 
           simp only
           exact (resolve_precedence tbl hT n s.2 p).2.2.2 hcfg (by rw [hget, hc]) hd
 
-/-- **Origin = default (partial).** A parameter reported as defaulted receives its default provided the
-    caller's context does not hold that name.  Without that proviso the statement is false:
-    see `origin_default_untrue_witness`. -/
+/-- **Origin = default, one-pass report (partial).** A parameter the *first pass* classifies as defaulted receives
+    its default provided the caller's context does not hold that name or an earlier node deleted the key.  Without
+    that proviso the statement is false of the first pass alone — see `origin_default_untrue_witness` — which is why
+    the inspection reclassifies in a second pass (`originOf2`, theorems `origin2_*`). -/
 theorem origin_default_true_partial (tbl : ResolveTable) (hT : precedenceOK tbl = true) (pre : List Node) (n : Node)
     (d₀ : Data) (c₀ : Ctx) (s : Data × Ctx) (hs : List Ctx)
     (hwf : ∀ m ∈ pre, nodeWF m = true ∧ construct m = none)
     (hrun : execHist tbl pre (d₀, c₀) = .ok (s, hs)) (p : PSig)
     (ho : originOf n (foldO pre 0 OState.init).om p = .default)
-    (hc₀ : c₀.has p.name = false) :
+    (hc₀ : c₀.has p.name = false ∨ (foldO pre 0 OState.init).gone.contains p.name = true) :
     ∃ dv, p.dflt = some dv ∧ resolve tbl n s.2 p = .ok dv := by
   have hinv := oinv_execHist tbl c₀ pre [] OState.init (d₀, c₀) s hs hwf (oinv_init d₀ c₀) hrun
   simp only [List.nil_append, List.length_nil] at hinv
@@ -1270,10 +1271,12 @@ theorem origin_default_true_partial (tbl : ResolveTable) (hT : precedenceOK tbl 
           cases hg : (foldO pre 0 OState.init).gone.contains p.name with
           | false =>
             rw [hinv.untouched p.name hom hg]
-            rw [has_iff_get] at hc₀
-            cases hc : c₀.get p.name with
-            | none => rfl
-            | some v => rw [hc] at hc₀; cases hc₀
+            rcases hc₀ with hc₀ | hc₀
+            · rw [has_iff_get] at hc₀
+              cases hc : c₀.get p.name with
+              | none => rfl
+              | some v => rw [hc] at hc₀; cases hc₀
+            · rw [hg] at hc₀; cases hc₀
           | true =>
             have := hinv.absent p.name hom hg
             rw [has_iff_get] at this
@@ -1377,6 +1380,199 @@ theorem origin_initial_true_of_accepted (tbl : ResolveTable) (hT : precedenceOK 
         have hk' : ¬ p.name ∈ ast₁.known := by simpa using hk
         exact Or.inl ⟨p, ⟨hp, by simp [hcfg, hk', hd]⟩, rfl⟩
 
+/-! ## The two-pass report is true when the initial context holds exactly the required keys -/
+
+theorem originOf2_config (n : Node) (st : OState) (req : List String) (p : PSig) :
+    originOf2 n st req p = .config ↔ originOf n st.om p = .config := by
+  unfold originOf2
+  cases h : originOf n st.om p <;> simp
+  split <;> simp
+
+theorem originOf2_node (n : Node) (st : OState) (req : List String) (p : PSig) (j : Nat) :
+    originOf2 n st req p = .node j ↔ originOf n st.om p = .node j := by
+  unfold originOf2
+  cases h : originOf n st.om p <;> simp
+  split <;> simp
+
+/-- **Origin = default, as reported after the second pass.** For pipelines of any length, when the caller's context
+    holds exactly the required keys (`c₀.has k ↔ k ∈ req`), a parameter reported as defaulted receives its default. -/
+theorem origin2_default_true (tbl : ResolveTable) (hT : precedenceOK tbl = true) (pre : List Node) (n : Node)
+    (d₀ : Data) (c₀ : Ctx) (s : Data × Ctx) (hs : List Ctx) (req : List String)
+    (hexact : ∀ k, c₀.has k = req.contains k)
+    (hwf : ∀ m ∈ pre, nodeWF m = true ∧ construct m = none)
+    (hrun : execHist tbl pre (d₀, c₀) = .ok (s, hs)) (p : PSig)
+    (ho : originOf2 n (foldO pre 0 OState.init) req p = .default) :
+    ∃ dv, p.dflt = some dv ∧ resolve tbl n s.2 p = .ok dv := by
+  unfold originOf2 at ho
+  cases h1 : originOf n (foldO pre 0 OState.init).om p with
+  | config => rw [h1] at ho; cases ho
+  | node j => rw [h1] at ho; cases ho
+  | initial => rw [h1] at ho; cases ho
+  | default =>
+    rw [h1] at ho
+    simp only at ho
+    refine origin_default_true_partial tbl hT pre n d₀ c₀ s hs hwf hrun p h1 ?_
+    cases hr : req.contains p.name with
+    | false => left; rw [hexact, hr]
+    | true =>
+      cases hg : (foldO pre 0 OState.init).gone.contains p.name with
+      | true => right; rfl
+      | false => rw [hr, hg] at ho; simp at ho
+
+/-- **Origin = initial context, as reported after the second pass.** A parameter reported as coming from the initial
+    context — by the first pass, or reclassified from "default" by the second — receives what the caller supplied,
+    provided no earlier node deleted the key (which acceptance guarantees for first-pass reports, and the second pass
+    checks itself) and the caller did supply it (which "every required key is supplied" guarantees). -/
+theorem origin2_initial_true (tbl : ResolveTable) (hT : precedenceOK tbl = true) (pre : List Node) (n : Node)
+    (d₀ : Data) (c₀ : Ctx) (s : Data × Ctx) (hs : List Ctx) (req : List String)
+    (hwf : ∀ m ∈ pre, nodeWF m = true ∧ construct m = none)
+    (hrun : execHist tbl pre (d₀, c₀) = .ok (s, hs)) (p : PSig)
+    (ho : originOf2 n (foldO pre 0 OState.init) req p = .initial)
+    (hg : (foldO pre 0 OState.init).gone.contains p.name = false)
+    (hc : c₀.has p.name = true) :
+    ∃ v, c₀.get p.name = some v ∧ resolve tbl n s.2 p = .ok v := by
+  rw [has_iff_get] at hc
+  cases hv : c₀.get p.name with
+  | none => rw [hv] at hc; cases hc
+  | some v =>
+    refine ⟨v, rfl, ?_⟩
+    unfold originOf2 at ho
+    cases h1 : originOf n (foldO pre 0 OState.init).om p with
+    | config => rw [h1] at ho; cases ho
+    | node j => rw [h1] at ho; cases ho
+    | initial =>
+      have := origin_initial_true tbl hT pre n d₀ c₀ s hs hwf hrun p h1 hg
+      rw [hv] at this; exact this
+    | default =>
+      -- reclassified: not configured, not produced by an earlier node, not deleted: the caller's value wins over the default
+      have hinv := oinv_execHist tbl c₀ pre [] OState.init (d₀, c₀) s hs hwf (oinv_init d₀ c₀) hrun
+      simp only [List.nil_append, List.length_nil] at hinv
+      unfold originOf at h1
+      cases hcfg : n.config.lookup p.name with
+      | some w => simp [hcfg] at h1
+      | none =>
+        simp only [hcfg, Option.isSome_none, Bool.false_eq_true, if_false] at h1
+        cases hom : (foldO pre 0 OState.init).om.lookup p.name with
+        | some j' => rw [hom] at h1; cases h1
+        | none =>
+          have hget := hinv.untouched p.name hom hg
+          exact (resolve_precedence tbl hT n s.2 p).2.1 hcfg v (by rw [hget, hv])
+
+/-! ## Capstone: every reported origin is true of accepted pipelines run with exactly the required keys -/
+
+theorem stepA_need (n : Node) (ast ast' : AState) (need : List String) (h : stepA n ast = .ok (need, ast')) :
+    need = neededKeys n ast := by
+  unfold stepA at h
+  split at h
+  · cases h
+  · split at h
+    · cases h
+    · simp only at h
+      split at h
+      · cases h
+      · injection h with h; injection h with h1 _; exact h1.symm
+
+/-- The keys the node after an accepted prefix needs are among the pipeline's required keys. -/
+theorem needed_in_req : ∀ (pre : List Node) (n : Node) (post : List Node) (i : Nat) (ast : AState) (ost : OState) (req : List String),
+    analyseFrom (pre ++ n :: post) i ast = .ok req → SimAO ast ost →
+    ∃ ast₁, SimAO ast₁ (foldO pre i ost) ∧ (∀ k ∈ neededKeys n ast₁, ast₁.gone.contains k = false)
+      ∧ (∀ k ∈ neededKeys n ast₁, k ∈ req)
+  | [], n, post, i, ast, ost, req, h, hsim => by
+    simp only [List.nil_append, analyseFrom] at h
+    split at h
+    · cases h
+    · rename_i need ast' hstep
+      split at h
+      · cases h
+      · rename_i rest hrest
+        injection h with h; subst h
+        refine ⟨ast, by simpa [foldO] using hsim, (simAO_step n i ast ast' ost need hstep hsim).2, ?_⟩
+        intro k hk
+        rw [stepA_need n ast ast' need hstep]
+        exact List.mem_append_left _ hk
+  | m :: pre, n, post, i, ast, ost, req, h, hsim => by
+    simp only [List.cons_append, analyseFrom] at h
+    split at h
+    · cases h
+    · rename_i need ast' hstep
+      split at h
+      · cases h
+      · rename_i rest hrest
+        injection h with h; subst h
+        have h1 := (simAO_step m i ast ast' ost need hstep hsim).1
+        obtain ⟨ast₁, hs1, hg1, hr1⟩ := needed_in_req pre n post (i + 1) ast' (stepO m i ost) rest hrest h1
+        exact ⟨ast₁, by simpa [foldO] using hs1, hg1, fun k hk => List.mem_append_right _ (hr1 k hk)⟩
+
+/-- **C02 (origins, capstone).** Take any pipeline the flow analysis accepts, with required keys `req`, and run it
+    from an initial context that holds exactly those keys.  For every node (reached by the run) and every parameter
+    of its processor, the origin the inspection reports — after its second pass — is where the run-time value
+    actually comes from: the configured value; the value key `p` had right after node `j` ran; the caller's value; or
+    the processor default. -/
+theorem origin_report_true (tbl : ResolveTable) (hT : precedenceOK tbl = true)
+    (pre : List Node) (n : Node) (post : List Node) (d₀ : Data) (c₀ : Ctx) (s : Data × Ctx) (hs : List Ctx) (req : List String)
+    (hacc : analyse (pre ++ n :: post) d₀.ty = .ok req)
+    (hexact : ∀ k, c₀.has k = req.contains k)
+    (hwf : ∀ m ∈ pre, nodeWF m = true ∧ construct m = none)
+    (hrun : execHist tbl pre (d₀, c₀) = .ok (s, hs)) (p : PSig) (hp : p ∈ n.params) :
+    match originOf2 n (foldO pre 0 OState.init) req p with
+    | .config => ∃ v, n.config.lookup p.name = some v ∧ resolve tbl n s.2 p = .ok v
+    | .node j => j < pre.length ∧ ∃ dj cj v, execFrom tbl (pre.take (j + 1)) 0 (d₀, c₀) = .ok (dj, cj) ∧
+        cj.get p.name = some v ∧ resolve tbl n s.2 p = .ok v
+    | .initial => ∃ v, c₀.get p.name = some v ∧ resolve tbl n s.2 p = .ok v
+    | .default => ∃ dv, p.dflt = some dv ∧ resolve tbl n s.2 p = .ok dv := by
+  obtain ⟨ast₁, hsim, hgone, hreq⟩ := needed_in_req pre n post 0 (initState d₀.ty) OState.init req hacc (simAO_init _)
+  cases ho : originOf2 n (foldO pre 0 OState.init) req p with
+  | config =>
+    simp only
+    exact origin_config_true tbl hT n _ s.2 p ((originOf2_config n _ req p).mp ho)
+  | node j =>
+    simp only
+    exact origin_node_true tbl hT pre n d₀ c₀ s hs hwf hrun p j ((originOf2_node n _ req p j).mp ho)
+  | default =>
+    simp only
+    exact origin2_default_true tbl hT pre n d₀ c₀ s hs req hexact hwf hrun p ho
+  | initial =>
+    simp only
+    -- either the first pass said so (then p is a needed key: required and not deleted), or the second pass reclassified
+    have hcases : (foldO pre 0 OState.init).gone.contains p.name = false ∧ req.contains p.name = true := by
+      unfold originOf2 at ho
+      cases h1 : originOf n (foldO pre 0 OState.init).om p with
+      | config => rw [h1] at ho; cases ho
+      | node j => rw [h1] at ho; cases ho
+      | default =>
+        rw [h1] at ho
+        simp only at ho
+        cases hr : req.contains p.name with
+        | false => rw [hr] at ho; simp at ho
+        | true =>
+          cases hg : (foldO pre 0 OState.init).gone.contains p.name with
+          | true => rw [hr, hg] at ho; simp at ho
+          | false => exact ⟨rfl, rfl⟩
+      | initial =>
+        -- p is one of the needed keys of n
+        have hmem : p.name ∈ neededKeys n ast₁ := by
+          unfold originOf at h1
+          cases hcfg : n.config.lookup p.name with
+          | some v => simp [hcfg] at h1
+          | none =>
+            simp only [hcfg, Option.isSome_none, Bool.false_eq_true, if_false] at h1
+            cases hom : (foldO pre 0 OState.init).om.lookup p.name with
+            | some j' => rw [hom] at h1; cases h1
+            | none =>
+              rw [hom] at h1
+              simp only at h1
+              cases hd : p.dflt with
+              | some dv => simp [hd] at h1
+              | none =>
+                have hk : ast₁.known.contains p.name = false := by rw [hsim.known, hom]; rfl
+                have hk' : ¬ p.name ∈ ast₁.known := by simpa using hk
+                simp only [neededKeys, List.mem_append, List.mem_map, List.mem_filter]
+                exact Or.inl ⟨p, ⟨hp, by simp [hcfg, hk', hd]⟩, rfl⟩
+        refine ⟨?_, ?_⟩
+        · rw [← hsim.gone]; exact hgone _ hmem
+        · simpa using hreq _ hmem
+    exact origin2_initial_true tbl hT pre n d₀ c₀ s hs req hwf hrun p ho hcases.1 (by rw [hexact]; exact hcases.2)
+
 /-! ## Where the report is untrue: the recorded finding, as a theorem about the model -/
 
 /-- The documented precedence table. -/
@@ -1385,15 +1581,17 @@ def docTable : ResolveTable :=
    ((false, true, true), .context), ((false, true, false), .context), ((false, false, true), .default), ((false, false, false), .none_)]
 
 /-- `[TSourceDef (v defaults to "d0"), delete:v]` with the initial context holding exactly the required key `v`:
-    the analysis accepts and requires exactly `v`; the inspection reports node 0's `v` as defaulted; at run time
-    node 0 receives the caller's value.  (Replayed on the real code by `props/c02.py`; recorded as a known finding.) -/
+    the analysis accepts and requires exactly `v`; the first pass classifies node 0's `v` as defaulted; at run time
+    node 0 receives the caller's value; the second pass reports "initial context".  (The one-pass report was a defect
+    of /repo found by `props/c02.py` and repaired there; this theorem keeps the failing pipeline.) -/
 theorem origin_default_untrue_witness :
     precedenceOK docTable = true
     ∧ (analyse [srcDef, del "v"] "NoDataType").toOption = some ["v", "v"]
     ∧ originOf srcDef (foldO [] 0 OState.init).om ⟨"v", some (Val.str "d0")⟩ = .default
     ∧ resolve docTable srcDef [("v", Val.str "from-caller")] ⟨"v", some (Val.str "d0")⟩ = .ok (Val.str "from-caller")
-    ∧ (exec docTable [srcDef, del "v"] (Data.nodata, [("v", Val.str "from-caller")])).toOption.isSome = true := by
-  refine ⟨by decide, by decide, by decide, by rfl, by decide⟩
+    ∧ (exec docTable [srcDef, del "v"] (Data.nodata, [("v", Val.str "from-caller")])).toOption.isSome = true
+    ∧ originOf2 srcDef (foldO [] 0 OState.init) ["v", "v"] ⟨"v", some (Val.str "d0")⟩ = .initial := by
+  refine ⟨by decide, by decide, by decide, by rfl, by decide, by decide⟩
 
 /-! ## Non-vacuity -/
 
@@ -1407,5 +1605,21 @@ example :
     ∧ (∀ m ∈ [srcDef, probeTo "a"], nodeWF m = true ∧ construct m = none)
     ∧ (execHist docTable [srcDef, probeTo "a"] (Data.nodata, [])).toOption.isSome = true := by
   refine ⟨by decide, by decide, by decide⟩
+
+/-- The hypotheses of `origin_report_true` are satisfiable: an accepted pipeline with all four origins, the initial
+    context holding exactly the required key `z`, a well-formed prefix that runs. -/
+example :
+    (analyse ([srcDef, probeTo "a"] ++ op4 :: []) "NoDataType").toOption = some ["z"]
+    ∧ (∀ k, Ctx.has [("z", Val.str "Z")] k = ["z"].contains k)
+    ∧ (∀ m ∈ [srcDef, probeTo "a"], nodeWF m = true ∧ construct m = none)
+    ∧ (execHist docTable [srcDef, probeTo "a"] (Data.nodata, [("z", Val.str "Z")])).toOption.isSome = true
+    ∧ (op4.params.map (fun p => originOf2 op4 (foldO [srcDef, probeTo "a"] 0 OState.init) ["z"] p))
+        = [.node 1, .initial, .default, .config] := by
+  refine ⟨by decide, ?_, by decide, by decide, by decide⟩
+  intro k
+  by_cases h : k = "z"
+  · subst h; decide
+  · have : (k == "z") = false := by simpa using h
+    simp [Ctx.has, List.lookup, this, h]
 
 end SemantivaModel.Inspect
